@@ -27,6 +27,13 @@
    thread v works on the first entry tagged v, new jobs are appended at the end - the per-thread order is the
    FIFO order of that thread's channel.
 
+   The job queues of the voting threads are UNBOUNDED in the model (crossbeam::channel::unbounded in the code):
+   the dispatch step of predict is always enabled (theorem dispatch_never_blocks in Props/C06.v). A bound on
+   these queues in the code is therefore a refinement failure that the model cannot exhibit - predict would
+   block in `send` while the voting thread waits on the bounded(1) result channel, and a caller that retrieves
+   results only after predict returns (allowed by the proviso) deadlocks. Only the correspondence can catch it:
+   the harness submits batches of 33..80 scenes to one or two voting threads in both retrieval modes.
+
    Auto-waste (the prologue of predict) is not modelled: it only moves expired tracks, which no job can
    select (an expired track is incompatible with every candidate of the current epoch). *)
 From Coq Require Import List NArith Bool Arith Lia Permutation.
